@@ -123,6 +123,45 @@ fn concrete(algo: &str, k: Kind, a: &hpo::HpoTerm, b: &hpo::HpoTerm) -> f32 {
     }
 }
 
+/// Similarity values are plain values: a score is a function of (ontology, a, b) and never of what the
+/// same value was asked before.  One value per algorithm and kind lives as long as the process and is
+/// asked about EVERY ontology of the run, next to the fresh values above.
+struct LongLived {
+    graphic: [GraphIc; 3],
+    resnik: [Resnik; 3],
+    lin: [Lin; 3],
+    jc: [Jc; 3],
+    relevance: [Relevance; 3],
+    ic: [InformationCoefficient; 3],
+    distance: Distance,
+    mutation: [Mutation; 3],
+}
+thread_local! {
+    static LONG_LIVED: LongLived = LongLived {
+        graphic: KINDS.map(|k| GraphIc::new(ic_kind(k))),
+        resnik: KINDS.map(|k| Resnik::new(ic_kind(k))),
+        lin: KINDS.map(|k| Lin::new(ic_kind(k))),
+        jc: KINDS.map(|k| Jc::new(ic_kind(k))),
+        relevance: KINDS.map(|k| Relevance::new(ic_kind(k))),
+        ic: KINDS.map(|k| InformationCoefficient::new(ic_kind(k))),
+        distance: Distance::new(),
+        mutation: KINDS.map(|k| Mutation::new(ic_kind(k))),
+    };
+}
+pub fn long_lived(algo: &str, k: Kind, a: &hpo::HpoTerm, b: &hpo::HpoTerm) -> f32 {
+    LONG_LIVED.with(|l| match algo {
+        "graphic" => l.graphic[k as usize].calculate(a, b),
+        "resnik" => l.resnik[k as usize].calculate(a, b),
+        "lin" => l.lin[k as usize].calculate(a, b),
+        "jc" => l.jc[k as usize].calculate(a, b),
+        "relevance" => l.relevance[k as usize].calculate(a, b),
+        "informationcoefficient" => l.ic[k as usize].calculate(a, b),
+        "distance" => l.distance.calculate(a, b),
+        "mutation" => l.mutation[k as usize].calculate(a, b),
+        _ => unreachable!(),
+    })
+}
+
 fn check_ont(st: &mut Stats, prop: &str, line: &Value, conc: &Concretisation, path: &str, ont: &Ontology, exp: &Expected, pairs: &[PairArgs]) {
     let mut diffs: Vec<String> = vec![];
     // C04 is about the FORMULAS: they are evaluated on the terms' own (observed) information content,
@@ -176,7 +215,8 @@ fn check_ont(st: &mut Stats, prop: &str, line: &Value, conc: &Concretisation, pa
                 let c = catch(|| concrete(algo, k, &a, &b)).unwrap_or(f32::NAN);
                 let s = catch(|| a.similarity_score(&b, &bi)).unwrap_or(f32::NAN);
                 let n = catch(|| Builtins::new(algo, ic_kind(k)).map(|x| x.calculate(&a, &b)).unwrap_or(f32::NAN)).unwrap_or(f32::NAN);
-                for (what, v) in [("concrete struct", c), ("similarity_score", s), ("Builtins::new by name", n)] {
+                let ll = catch(|| long_lived(algo, k, &a, &b)).unwrap_or(f32::NAN);
+                for (what, v) in [("concrete struct", c), ("similarity_score", s), ("Builtins::new by name", n), ("a long-lived value of the concrete struct (asked about earlier ontologies before)", ll)] {
                     if v.to_bits() != got.to_bits() {
                         diffs.push(format!("{algo}/{}({},{}): {what} gives {v}, Builtins variant gives {got}", k.name(), p.a, p.b));
                     }
@@ -310,6 +350,11 @@ fn check_extras(st: &mut Stats, line: &Value, conc: &Concretisation, ont: &Ontol
             let want = if dist < 0 { 0.0 } else { 1.0 / (dist as f64 + 1.0) };
             if !close_f32(sc, want, 1e-5, 1e-6) {
                 d.push(format!("Distance similarity({a},{b}) = {sc}, expected {want}"));
+            }
+            // a Distance value that has been asked about other ontologies before gives the same answer
+            let ll = long_lived("distance", Kind::Omim, &ta, &tb);
+            if !close_f32(ll, want, 1e-5, 1e-6) {
+                d.push(format!("Distance similarity({a},{b}) from a long-lived Distance value (asked about earlier ontologies before) = {ll}, expected {want}"));
             }
         }
     }
